@@ -69,14 +69,18 @@ impl<'a> ZoneSelector for FieldSelector<'a> {
                     if let Some(z) = self.temporal_pruner.apply_temporal_only(&args) {
                         candidate_zones = z;
                     } else {
-                        return Vec::new();
+                        // The index has no answer for this operator / literal: every zone may match.
+                        candidate_zones =
+                            collect_zones_for_scope(self.qplan, self.caches, segment_id, Some(uid));
                     }
                 }
                 IndexStrategy::EnumBitmap { .. } => {
                     if let Some(z) = self.enum_pruner.apply(&args) {
                         candidate_zones = z;
                     } else {
-                        return Vec::new();
+                        // The index has no answer for this operator / literal: every zone may match.
+                        candidate_zones =
+                            collect_zones_for_scope(self.qplan, self.caches, segment_id, Some(uid));
                     }
                 }
                 IndexStrategy::ZoneSuRF { .. } => {
@@ -107,14 +111,18 @@ impl<'a> ZoneSelector for FieldSelector<'a> {
                         candidate_zones =
                             collect_zones_for_scope(self.qplan, self.caches, segment_id, Some(uid));
                     } else {
-                        return Vec::new();
+                        // The index has no answer for this operator / literal: every zone may match.
+                        candidate_zones =
+                            collect_zones_for_scope(self.qplan, self.caches, segment_id, Some(uid));
                     }
                 }
                 IndexStrategy::XorPresence { .. } => {
                     if let Some(z) = self.xor_pruner.apply_presence_only(&args) {
                         candidate_zones = z;
                     } else {
-                        return Vec::new();
+                        // The index has no answer for this operator / literal: every zone may match.
+                        candidate_zones =
+                            collect_zones_for_scope(self.qplan, self.caches, segment_id, Some(uid));
                     }
                 }
                 IndexStrategy::FullScan => {
